@@ -83,7 +83,7 @@ class C06(Prop):
                 map_over = rng.sample(orig, rng.randint(1, len(orig)))
             yield {"target": target, "orig": orig, "defaults": defaults, "ctor": ctor, "batches": batches,
                    "mapOver": map_over, "omit": [p for p in defaults if rng.random() < 0.6], "seedvals": rng.randint(0, 50),
-                   "use_first": rng.random() < 0.5}
+                   "use_first": rng.random() < 0.5, "use_between": rng.random() < 0.5}
 
     # ---------------------------------------------------------------- implementation
     def _node(self, case: dict, env: Env) -> Any:
@@ -128,6 +128,8 @@ class C06(Prop):
         is_out = case["target"].endswith("-out")
         accepted = []
         for b in case["batches"]:
+            if case.get("use_between"):
+                build._exercise(node, env)      # the object is used (queried, placed in a graph) between rename calls
             try:
                 node = node.with_outputs(dict(b)) if is_out else node.with_inputs(dict(b))
                 accepted.append(True)
